@@ -68,6 +68,13 @@ def py_int_ok(x):
         return False
 
 
+def field_of(v, o, name):
+    """Instance field, falling back to the class-level default (ASGI Request keeps its cache fields as class attributes until set)."""
+    if hasattr(o, '_fields') and hasattr(o, '_cls'):
+        return o._fields[name] if name in o._fields else getattr(o._cls, name)
+    return getattr(o, name)
+
+
 def is_400(v, exc, cls='falcon:HTTPBadRequest'):
     return exc is not None and exc.isa(v.real(cls))
 
@@ -114,12 +121,30 @@ PY_INT = z3.Function('py.int', z3.StringSort(), z3.IntSort())
 PY_INT_OK = z3.Function('py.int.accepts', z3.StringSort(), z3.BoolSort())
 
 
+_INT_LIT = None
+
+
+def _int_literal_re():
+    """Decimal literals int() accepts among latin-1 texts: blanks, optional sign, digits with single underscores between them, blanks."""
+    global _INT_LIT
+    if _INT_LIT is None:
+        ch = lambda c: z3.Re(z3.StringVal(c))
+        ws = z3.Star(z3.Union(*[ch(c) for c in '\t\n\x0b\x0c\r\x1c\x1d\x1e\x1f \x85\xa0']))
+        d = z3.Range(z3.StringVal('0'), z3.StringVal('9'))
+        body = z3.Concat(z3.Plus(d), z3.Star(z3.Concat(ch('_'), z3.Plus(d))))
+        lit = z3.Concat(ws, z3.Option(z3.Union(ch('+'), ch('-'))), body, ws)
+        _INT_LIT = lit
+    return _INT_LIT
+
+
 def int_model(I, s, *rest):
     if rest:
         raise Unreached('int(str, base)')
     ctx = I.ctx
     t = s.t
     digits = z3.InRe(t, _digits_re())
+    # an accepted text is a decimal literal (header values are latin-1 texts: PEP 3333 native strings / ASGI byte strings, see ASSUMPTIONS)
+    ctx.assume(mk_bool(z3.Implies(PY_INT_OK(t), z3.InRe(t, _int_literal_re()))))
     # 1*DIGIT is accepted with its decimal value
     ctx.assume(mk_bool(z3.Implies(digits, z3.And(PY_INT_OK(t), PY_INT(t) == z3.StrToInt(t)))))
     # the empty string is rejected; a literal without '-' is never negative
@@ -287,10 +312,14 @@ def _case_axioms(s_t, r_t, f):
     return [mk_bool(z3.Implies(z3.InRe(s_t, _ASCII), z3.And(z3.InRe(r_t, _ASCII), z3.Length(r_t) == z3.Length(s_t))))]
 
 
-def _base_setup(reg, ex):
-    reg.int_parser = int_model
+def _ascii_case_setup(reg, ex):
+    _base_setup(reg, ex)
     ex.str_axioms['lower'] = _case_axioms
     ex.str_axioms['upper'] = _case_axioms
+
+
+def _base_setup(reg, ex):
+    reg.int_parser = int_model
     ex.codec_handler = latin1_codec
     ex.str_hooks = {'partition': _hook_partition, 'find': _hook_find, 'rfind': _hook_rfind, 'slice': _hook_slice}
     ex.split_handler = _split_model
@@ -824,7 +853,7 @@ def _etag_property(key, field):
                 v.check('parsed-entity-tags-returned', out.exc is None and out.value is parser.returned[0])
                 v.cover('parsed')
             n1 = len(parser.calls)
-            v.check('result-cached', v.get(req, field) is not UNSET and v.get(req, field) is out.value)
+            v.check('result-cached', field_of(v, req, field) is not UNSET and field_of(v, req, field) is out.value)
             clobber(v, env, [key])
             again = v.call(req)
             v.check('second-access-returns-the-identical-value', again.exc is None and again.value is out.value)
@@ -960,7 +989,7 @@ def wsgi_forwarded(v):
         if not ok:
             return
         v.check('parsed-elements-returned', out.exc is None and out.value is parser.returned[0])
-        v.check('result-cached', v.get(req, '_cached_forwarded') is out.value)
+        v.check('result-cached', field_of(v, req, '_cached_forwarded') is out.value)
         clobber(v, env, ['HTTP_FORWARDED'])
         again = v.call(req)
         v.check('second-access-returns-the-identical-list', again.exc is None and again.value is out.value)
@@ -1212,7 +1241,7 @@ def _url_property(prop, field, forwarded):
             else:
                 want = scheme + '://' + netloc + root
             v.check('value-is-the-concatenation-of-its-parts', out.value == want)
-            v.check('result-cached', v.get(req, field) is not None and v.get(req, field) == out.value)
+            v.check('result-cached', field_of(v, req, field) is not None and field_of(v, req, field) == out.value)
             n1 = len(parser.calls)
             # the request changes behind the cache's back: a memoised value must not be recomputed
             clobber(v, env, [k for k in list(env) if k != 'wsgi.url_scheme'])
@@ -1341,7 +1370,7 @@ def _access_route(v, retry):
         want = spec_access_route(v, env, hops_of(parser), remote, xff)
         v.check('route-is-forwarded-then-x-forwarded-for-then-x-real-ip-then-remote-addr', same_value(list(out.value), want))
         v.check('route-ends-with-the-remote-address', len(out.value) >= 1 and out.value[-1] == remote)
-        v.check('result-cached', v.get(req, '_cached_access_route') is out.value)
+        v.check('result-cached', field_of(v, req, '_cached_access_route') is out.value)
         clobber(v, env, list(env))
         v.set(req, '_cached_forwarded', None)
         again = v.call(req)
@@ -1349,9 +1378,12 @@ def _access_route(v, retry):
         v.cover('route')
 
 
-for _src, _nm in ((0, 'forwarded'), (1, 'x-forwarded-for'), (2, 'x-real-ip'), (3, 'remote-addr')):
+for _src, _nm in ((1, 'x-forwarded-for'), (2, 'x-real-ip'), (3, 'remote-addr')):
     harness(PROP, WREQ + '.access_route', name='wsgi_access_route[%s]' % _nm, setup=_base_setup, inline=ROUTE_INLINE, fix={'route-source': _src})(
         lambda v: _access_route(v, False))
+for _n in (0, 1, 2):
+    harness(PROP, WREQ + '.access_route', name='wsgi_access_route[forwarded,hops=%d]' % _n, setup=_base_setup, inline=ROUTE_INLINE,
+            fix={'route-source': 0, 'hops': _n})(lambda v: _access_route(v, False))
 harness(PROP, WREQ + '.access_route', name='wsgi_access_route_retry', setup=_base_setup, inline=ROUTE_INLINE,
         fix={'route-source': 0, 'lower-priority-headers-too': 0, 'has-REMOTE_ADDR': 0})(lambda v: _access_route(v, True))
 
@@ -1562,7 +1594,7 @@ def latin1_name(v, base):
     return name
 
 
-@harness(PROP, AGET, name='asgi_get_header', setup=_base_setup)
+@harness(PROP, AGET, name='asgi_get_header', setup=_ascii_case_setup)
 def asgi_get_header(v):
     headers, view = asgi_headers(v, optional=['x-token', 'content-type'])
     req = asgi_req(v, headers)
@@ -1588,7 +1620,7 @@ def asgi_get_header(v):
         v.cover('missing-optional')
 
 
-@harness(PROP, AGET, name='asgi_get_header_case_insensitive', setup=_base_setup)
+@harness(PROP, AGET, name='asgi_get_header_case_insensitive', setup=_ascii_case_setup)
 def asgi_get_header_case_insensitive(v):
     headers, view = asgi_headers(v, optional=['x-token', 'content-type'])
     req = asgi_req(v, headers)
@@ -1686,7 +1718,7 @@ def _asgi_etag_property(header, field):
                 v.check('parsed-entity-tags-returned', out.exc is None and out.value is parser.returned[0])
                 v.cover('parsed')
             n1 = len(parser.calls)
-            v.check('result-cached', v.get(req, field) is not UNSET and v.get(req, field) is out.value)
+            v.check('result-cached', field_of(v, req, field) is not UNSET and field_of(v, req, field) is out.value)
             headers[header.encode()] = header_bytes(v, header + '_later')
             again = v.call(req)
             v.check('second-access-returns-the-identical-value-without-parsing-again', again.exc is None and again.value is out.value and len(parser.calls) == n1)
@@ -1816,7 +1848,7 @@ def _asgi_url_property(prop, field, forwarded):
             rel = Ite(Len(qs) > 0, root + path + '?' + qs, root + path)
             want = rel if prop == 'relative_uri' else scheme + '://' + netloc + (rel if prop.endswith('uri') else root)
             v.check('value-is-the-concatenation-of-its-parts', out.value == want)
-            v.check('result-cached', v.get(req, field) is not None and v.get(req, field) == out.value)
+            v.check('result-cached', field_of(v, req, field) is not None and field_of(v, req, field) == out.value)
             n1 = len(parser.calls)
             for k in list(headers):
                 headers[k] = header_bytes(v, k.decode() + '_later')
@@ -1871,7 +1903,7 @@ def _asgi_access_route(v, mode):
         # ASGI difference (source comment): an empty client address is not put into an otherwise empty route
         want = spec_access_route(v, dict(view), hops_of(parser), client, xff, drop_empty_remote=True)
         v.check('route-is-forwarded-then-x-forwarded-for-then-x-real-ip-then-client', same_value(list(out.value), want))
-        v.check('result-cached', v.get(req, '_cached_access_route') is out.value)
+        v.check('result-cached', field_of(v, req, '_cached_access_route') is out.value)
         for k in list(headers):
             headers[k] = header_bytes(v, k.decode() + '_later')
         v.set(req, '_cached_forwarded', None)
@@ -1881,9 +1913,12 @@ def _asgi_access_route(v, mode):
 
 
 A_ROUTE_INLINE = [AGET, PARSE_HOST, WREQ + '.forwarded']
-for _src, _nm in ((0, 'forwarded'), (1, 'x-forwarded-for'), (2, 'x-real-ip'), (3, 'client')):
+for _src, _nm in ((1, 'x-forwarded-for'), (2, 'x-real-ip'), (3, 'client')):
     harness(PROP, AREQ + '.access_route', name='asgi_access_route[%s]' % _nm, setup=_base_setup, inline=A_ROUTE_INLINE, fix={'route-source': _src})(
         lambda v: _asgi_access_route(v, 'route'))
+for _n in (0, 1, 2):
+    harness(PROP, AREQ + '.access_route', name='asgi_access_route[forwarded,hops=%d]' % _n, setup=_base_setup, inline=A_ROUTE_INLINE,
+            fix={'route-source': 0, 'hops': _n})(lambda v: _asgi_access_route(v, 'route'))
 harness(PROP, AREQ + '.access_route', name='asgi_access_route_retry', setup=_base_setup, inline=A_ROUTE_INLINE,
         fix={'route-source': 0, 'lower-priority-headers-too': 0, 'scope-has-client': 0})(lambda v: _asgi_access_route(v, 'retry'))
 harness(PROP, AREQ + '.access_route', name='asgi_access_route_client_none', setup=_base_setup, inline=A_ROUTE_INLINE,
@@ -1919,10 +1954,56 @@ ASSUMPTIONS = []
 NOT_DECIDED = []
 TRUSTED = []
 KILLS = [
+    # a removed try/except around int()
     ('falcon/request.py', "        try:\n            value_as_int = int(value)\n        except ValueError:\n            msg = 'The value of the header must be a number.'\n            raise errors.HTTPInvalidHeader(msg, 'Content-Length')\n",
-     "        value_as_int = int(value)\n", 'Request.content_length#escape-only-400-class'),
-    ('falcon/request.py', '                if last_num < first_num:\n', '                if last_num <= first_num:\n', 'Request.range#closed-range-value'),
-    ('falcon/request.py', '                first_num, last_num = (-int(last), -1)\n', '                first_num, last_num = (int(last), -1)\n', 'Request.range#suffix-range-value'),
+     "        value_as_int = int(value)\n", 'falcon.request:Request.content_length#escape-only-400-class'),
+    # < vs <= in range validation: bytes=5-5 rejected
+    ('falcon/request.py', '                if last_num < first_num:\n', '                if last_num <= first_num:\n', 'falcon.request:Request.range#closed-range-value'),
+    # suffix-range sign
+    ('falcon/request.py', '                first_num, last_num = (-int(last), -1)\n', '                first_num, last_num = (int(last), -1)\n', 'falcon.request:Request.range#suffix-range-value'),
+    # "bytes=5" (no dash) accepted as an open range
+    ('falcon/request.py', '            if not sep:\n                raise ValueError()\n\n            if first and last:\n', '            if first and last:\n', 'falcon.request:Request.range#range-without-dash-rejected'),
+    # narrowed except clause: ValueError of int() becomes a 500
+    ('falcon/request.py', "        except ValueError:\n            msg = 'The value of the header must be an integer.'\n", "        except TypeError:\n            msg = 'The value of the header must be an integer.'\n",
+     'falcon.request:Request.get_header_as_int#escape-only-400-class'),
+    ('falcon/request.py', "        except ValueError:\n            msg = 'It must be formatted according to RFC 7231, Section 7.1.1.1'\n", "        except TypeError:\n            msg = 'It must be formatted according to RFC 7231, Section 7.1.1.1'\n",
+     'falcon.request:Request.get_header_as_datetime#escape-only-400-class'),
+    # default port swap 80 <-> 443
+    ('falcon/request.py', "            default_port = 80 if self.env['wsgi.url_scheme'] == 'http' else 443\n", "            default_port = 443 if self.env['wsgi.url_scheme'] == 'http' else 80\n",
+     'falcon.request:Request.port#host-without-port-gets-the-scheme-default-port'),
+    ('falcon/request.py', "            if self.scheme == 'https':\n                if port != '443':\n", "            if self.scheme == 'https':\n                if port != '80':\n",
+     'falcon.request:Request.netloc#port-omitted-iff-it-is-the-default-of-the-scheme'),
+    # cache never written
+    ('falcon/request.py', '            self._cached_uri = value\n\n        return self._cached_uri\n', '            return value\n\n        return self._cached_uri\n', 'falcon.request:Request.uri#result-cached'),
+    ('falcon/request.py', '            self._cached_forwarded = _parse_forwarded_header(forwarded)\n', '            return _parse_forwarded_header(forwarded)\n', 'falcon.request:Request.forwarded#result-cached'),
+    # cache ignored: parsed on every access
+    ('falcon/request.py', '        if self._cached_if_match is _UNSET:\n', '        if True:\n', 'falcon.request:Request.if_match#second-access-returns-the-identical-value'),
+    # header name not upper-cased
+    ('falcon/request.py', "        wsgi_name = name.upper().replace('-', '_')\n", "        wsgi_name = name.replace('-', '_')\n", 'falcon.request:Request.get_header#any-casing-of-the-name-finds-the-header'),
+    # remote address appended when it IS already the last element
+    ('falcon/request.py', '                if self._cached_access_route[-1] != self.remote_addr:\n', '                if self._cached_access_route[-1] == self.remote_addr:\n',
+     'falcon.request:Request.access_route#route-is-forwarded-then-x-forwarded-for-then-x-real-ip-then-remote-addr'),
+    # last hop instead of first hop
+    ('falcon/request.py', '                host = forwarded[0].host or self.netloc\n', '                host = forwarded[-1].host or self.netloc\n', 'falcon.request:Request.forwarded_host#first-hop-host-then-x-forwarded-host-then-own-netloc'),
+    # last cookie value wins
+    ('falcon/request.py', '            self._cookies_collapsed = {n: v[0] for n, v in self._cookies.items()}\n', '            self._cookies_collapsed = {n: v[-1] for n, v in self._cookies.items()}\n',
+     'falcon.request:Request.cookies#each-cookie-maps-to-its-first-value'),
+    ('falcon/request.py', '        return subdomain if sep else None\n', '        return subdomain\n', 'falcon.request:Request.subdomain#single-label-host-has-no-subdomain'),
+    # malformed Accept header counts as acceptance
+    ('falcon/request.py', '        except ValueError:\n            return False\n', '        except ValueError:\n            return True\n', 'falcon.request:Request.client_accepts#exact-match-or-wildcard-else-nonzero-quality-else-false'),
+    # obs-date loop gives up after the first format
+    ('falcon/util/misc.py', '        except ValueError:\n            continue\n', '        except TypeError:\n            continue\n', 'falcon.util.misc:http_date_to_dt#ValueError-only-after-every-format-failed'),
+    # ASGI twins
+    ('falcon/asgi/request.py', '        if value_as_int < 0:\n', '        if value_as_int <= 0:\n', 'falcon.asgi.request:Request.content_length#digits-yield-their-value'),
+    ('falcon/asgi/request.py', "            asgi_name = name.lower().encode('latin1')\n", "            asgi_name = name.encode('latin1')\n", 'falcon.asgi.request:Request.get_header#any-casing-of-the-name-finds-the-header'),
+    ('falcon/asgi/request.py', '            default_port = 443 if self._secure_scheme else 80\n            __, port = parse_host(host_header, default_port=default_port)\n',
+     '            default_port = 80 if self._secure_scheme else 443\n            __, port = parse_host(host_header, default_port=default_port)\n', 'falcon.asgi.request:Request.port#host-without-port-gets-the-scheme-default-port'),
+    ('falcon/asgi/request.py', '                if port != 443:\n', '                if port != 80:\n', 'falcon.asgi.request:Request.netloc#host-header-verbatim-else-server-with-port-omitted-iff-default'),
+    # parse_host: port of a bracketed literal starts one character early
+    ('falcon/util/uri.py', '            return (host[1:pos], int(host[pos + 2 :]))\n', '            return (host[0:pos], int(host[pos + 2 :]))\n', 'falcon.request:Request.host#bracketed-literal-with-port-splits-into-address-and-port'),
 ]
 HARMLESS = [
+    ('falcon/request.py', "            first, sep, last = req_range.partition('-')\n\n            if not sep:\n", "            first, dash, last = req_range.partition('-')\n\n            if not dash:\n"),
+    ('falcon/request.py', "            netloc_value = env['SERVER_NAME']\n\n            port: str = env['SERVER_PORT']\n", "            port: str = env['SERVER_PORT']\n            netloc_value = env['SERVER_NAME']\n"),
+    ('falcon/util/uri.py', "    name, _, port = host.partition(':')\n    return (name, int(port))\n", "    name, _sep, port_text = host.partition(':')\n    return (name, int(port_text))\n"),
 ]
